@@ -293,7 +293,64 @@ def run(ctx):
                     bad = 'content-type %r' % (reqs[0][2],)
         if bad:
             ctx.violation('%s: %s' % (op, bad), {'request': line, 'impl': got, 'body': data.decode('latin-1')}, key=key)
+    profile_change_sequences(ctx)
     seq_tie(ctx)
+
+
+def profile_change_sequences(ctx):
+    """join -> the stored profile changes (refresh / re-authenticate returning another profile, or the application
+    assigning the fields) -> join: every join posts the profile stored AT THAT MOMENT"""
+    from minecraft import authentication as A
+    rng = ctx.rng
+    srv = http.server.HTTPServer(('127.0.0.1', 0), Stand)
+    th = threading.Thread(target=srv.serve_forever, daemon=True)
+    th.start()
+    port = srv.server_address[1]
+    old = (A.AUTH_SERVER, A.SESSION_SERVER)
+    A.AUTH_SERVER = 'http://127.0.0.1:%d' % port
+    A.SESSION_SERVER = 'http://127.0.0.1:%d/session/minecraft' % port
+    try:
+        for trial in range(ctx.scale(9, 60)):
+            t = A.AuthenticationToken('alice', 'acc-0', 'cli-0')
+            t.profile.id_, t.profile.name = 'id-0', 'Name0'
+            bad = None
+            for step in range(1, 5):
+                Stand.reply = (204, b'')
+                Stand.log = []
+                try:
+                    t.join('srv%d' % step)
+                    pj = json.loads(Stand.log[-1][1]) if Stand.log else None
+                except Exception as e:
+                    pj = repr(e)
+                want = {'accessToken': t.access_token, 'selectedProfile': {'id': t.profile.id_, 'name': t.profile.name},
+                        'serverId': 'srv%d' % step}
+                ctx.case(('profile-change', trial, step))
+                if pj != want:
+                    bad = 'join #%d posts %r, the stored token/profile at that moment is %r' % (step, pj, want)
+                    break
+                how = (trial + step) % 3
+                if how == 0:
+                    t.profile.id_, t.profile.name = 'id-%d' % step, 'Name%d' % step
+                else:
+                    body = json.dumps({'accessToken': 'acc-%d' % step, 'clientToken': 'cli-0',
+                                       'selectedProfile': {'id': 'id-%d' % step, 'name': 'Name%d' % step}}).encode()
+                    Stand.reply = (200, body)
+                    Stand.log = []
+                    try:
+                        if how == 1:
+                            t.refresh()
+                        else:
+                            t.authenticate('alice', 'pw')
+                    except Exception as e:
+                        bad = 'step %d raised %r' % (step, e)
+                        break
+            if bad:
+                ctx.violation('join / profile change / join on one token: %s' % bad, {'trial': trial},
+                              key={'kind': 'profile-change-sequence'})
+                break
+    finally:
+        A.AUTH_SERVER, A.SESSION_SERVER = old
+        srv.shutdown()
 
 
 def seq_tie(ctx):
